@@ -199,6 +199,9 @@ class Lexer(object):
         self.cur_token_real = None
         # the real token before cur_token_real
         self.prev_token_real = None
+        # whether a line terminator (or a comment containing one, 7.4)
+        # was seen since cur_token_real
+        self.line_terminated = False
         self.next_tokens = []
         self.token_stack = [[None, []]]
         self.newline_idx = [0]
@@ -254,8 +257,11 @@ class Lexer(object):
         self.next_tokens = []
         # do the dance to ensure the valid previous tokens are tracked.
         valid_prev_token = self.valid_prev_token
+        after_line_terminator = self._is_prev_token_lt(self.cur_token)
         token = self.token()
         self.valid_prev_token = valid_prev_token
+        if token is not None:
+            token.after_line_terminator = after_line_terminator
         return token
 
     def token(self):
@@ -332,7 +338,7 @@ class Lexer(object):
 
     def auto_semi(self, token):
         if token is None or (token.type not in ('SEMI', 'AUTOSEMI') and (
-                token.type == 'RBRACE' or self._is_prev_token_lt())):
+                token.type == 'RBRACE' or self._is_prev_token_lt(token))):
             if token:
                 self.next_tokens.append(token)
             return self._create_semi_token(token)
@@ -343,10 +349,17 @@ class Lexer(object):
                 self.cur_token.type not in DIVISION_SYNTAX_MARKERS):
             self.valid_prev_token = self.cur_token
         self.cur_token = new_token
+        if self._is_line_terminated(self.cur_token):
+            self.line_terminated = True
         if (self.cur_token and
                 self.cur_token.type not in DIVISION_SYNTAX_MARKERS):
             self.prev_token_real = self.cur_token_real
             self.cur_token_real = self.cur_token
+            # whether this token is separated from the previous real
+            # token by at least one line terminator (7.9.1); comments
+            # in between do not matter.
+            self.cur_token.after_line_terminator = self.line_terminated
+            self.line_terminated = False
             # an IdentifierName following a dot is a property name
             # (11.2.1), even if it is spelled like a reserved word.
             self.cur_token.after_period = (
@@ -361,8 +374,16 @@ class Lexer(object):
             getattr(token, 'after_period', False)
         )
 
-    def _is_prev_token_lt(self):
-        return self.prev_token and self.prev_token.type == 'LINE_TERMINATOR'
+    def _is_line_terminated(self, token):
+        # a comment that contains a line terminator is a line terminator
+        # for the purpose of the syntactic grammar (7.4)
+        return token is not None and (
+            token.type == 'LINE_TERMINATOR' or (
+                token.type == 'BLOCK_COMMENT' and
+                PATT_LINE_TERMINATOR_SEQUENCE.search(token.value)))
+
+    def _is_prev_token_lt(self, token):
+        return getattr(token, 'after_line_terminator', False)
 
     def _read_regex(self):
         self.lexer.begin('regex')
@@ -371,6 +392,7 @@ class Lexer(object):
         return token
 
     def _get_update_token(self):
+        line_terminated = self.line_terminated
         self._set_tokens(self.get_lexer_token())
 
         if self.cur_token is not None:
@@ -406,12 +428,20 @@ class Lexer(object):
 
         # insert semicolon before restricted tokens
         # See section 7.9.1 ECMA262
-        if (self.cur_token is not None
-            and self.cur_token.type == 'LINE_TERMINATOR'
-            and self.prev_token is not None
-            and self.prev_token.type in ['BREAK', 'CONTINUE',
-                                         'RETURN', 'THROW']
-                and not self._is_property_name(self.prev_token)):
+        # the first line terminator that follows the keyword counts,
+        # whether or not comments sit in between.
+        if (self._is_line_terminated(self.cur_token)
+            and not line_terminated
+            and self.cur_token_real is not None
+            and self.cur_token_real.type in ['BREAK', 'CONTINUE',
+                                             'RETURN', 'THROW']
+                and not self._is_property_name(self.cur_token_real)):
+            if self.cur_token.type in COMMENTS:
+                # the comment itself is still to be provided
+                if self.yield_comments:
+                    self.next_tokens.append(self.cur_token)
+                elif self.with_comments:
+                    self.hidden_tokens.append(self.cur_token)
             return self._create_semi_token(self.cur_token)
 
         return self.cur_token
